@@ -2,6 +2,7 @@
 From Coq Require Import NArith Arith List Lia Bool.
 From BU Require Import Base.Exn Base.Bytes Model.MnemWords Model.MnemText Model.ChunkMnemonic
   Model.MoneroMnemonic Lemmas.MnemWords Lemmas.MnemText Lemmas.ChunkMnemonic.
+From BU Require Import Gen.MnemConsts.
 Import ListNotations.
 Open Scope N_scope.
 
